@@ -276,7 +276,7 @@ int main(int argc, char **argv) {
     // lying in other grid cells, so that the later ones have to bend onto the row / column of a pin that already has a
     // user somewhere in free space; then the usual random connectors and the usual history of moves / resizes / ...
     bool sharedPinMode = a.mode.find("sharedpin") != std::string::npos;
-    if (sharedPinMode && a.n < 0) ncases = (thorough ? 700 : 200) * a.scale;
+    if (sharedPinMode && a.n < 0) ncases = (thorough ? 600 : 200) * a.scale;
     long from = 0;
     for (int i = 1; i + 1 < argc; ++i) if (std::string(argv[i]) == "--from") from = atol(argv[i + 1]);
     for (long k = from; k < ncases; ++k) {
@@ -398,7 +398,7 @@ int main(int argc, char **argv) {
         try {
         sc.router = new ObsRouter((allowOrth ? OrthogonalRouting : 0) | (allowPoly ? PolyLineRouting : 0));
         sc.router->setTransactionUse(true);
-        sc.tap.router = sc.router; sc.tap.caseIdx = k; sc.tap.sampleEvery = thorough ? 24 : 8; sc.router->tap = &sc.tap; sc.router->setDebugHandler(&sc.tap);
+        sc.tap.router = sc.router; sc.tap.caseIdx = k; sc.tap.sampleEvery = thorough ? 24 : 8; sc.tap.enabled = !thorough || (k % 2 == 0); sc.router->tap = &sc.tap; sc.router->setDebugHandler(&sc.tap);
         sc.router->setRoutingParameter(shapeBufferDistance, buffer);
         double nudge = r.coin() ? 4.0 : 1.0;
         sc.router->setRoutingParameter(idealNudgingDistance, nudge);
